@@ -13,13 +13,16 @@ ASSUMPTIONS = ["the tree under check contains fixes/D-tree-1.patch and fixes/D-t
 PROFILE = Profile(loops=3, nops=(10, 40), cft=5,
                   weights={"delete": 26, "delete_from": 7, "delete_contained": 4, "probe": 14, "inst": 3, "handle": 1})
 CORPUS = [
+    # a filter expression that create_contentfilteredtopic does not support is refused (BadParameter) and creates nothing
+    ["participant P", "topic t P A ki", "cft c0 P t F - value > 5", "cft c1 P t F x value <= %0", "cft c2 P t F 10 nosuch <= %0",
+     "cft c3 P t F 10 value <= %0", "delete t", "delete c3", "delete t", "delete P"],
     # regression D-tree-1 (fixed): a content-filtered topic can be deleted / is cleared, the participant is deletable
-    ["participant P", "topic t P A ki", "cft c P t F - value > 5", "delete c", "delete c", "delete-contained P", "delete P"],
-    ["participant P", "topic t P A ki", "cft c P t F - value > 5", "delete P", "delete-contained P", "delete c", "delete P"],
+    ["participant P", "topic t P A ki", "cft c P t F 10 value <= %0", "delete c", "delete c", "delete-contained P", "delete P"],
+    ["participant P", "topic t P A ki", "cft c P t F 10 value <= %0", "delete P", "delete-contained P", "delete c", "delete P"],
     # regression D-tree-2 (fixed): a topic used through / referred to by a content-filtered topic is protected
-    ["participant P", "topic t P A ki", "cft c P t F - value > 5", "subscriber sb P", "reader r sb c", "delete t", "probe r",
+    ["participant P", "topic t P A ki", "cft c P t F 10 value <= %0", "subscriber sb P", "reader r sb c", "delete t", "probe r",
      "delete c", "delete r", "delete t", "delete c", "delete t", "delete c", "delete sb", "delete P"],
-    ["participant P", "topic t P A ki", "topic u P B kb", "cft c1 P t F - value > 5", "cft c2 P u F - value > 5", "subscriber sb P",
+    ["participant P", "topic t P A ki", "topic u P B kb", "cft c1 P t F 10 value <= %0", "cft bad P u F 10 value <= %0", "cft c2 P u F 7 id = %0", "subscriber sb P",
      "reader r sb c2", "delete u", "delete t", "delete c1", "delete r", "delete c2", "delete t", "delete u", "delete sb", "delete P"],
     ["participant P", "publisher pb P", "subscriber sb P", "topic t P A ki", "writer w pb t", "reader r sb t",
      "delete pb", "delete sb", "delete t", "delete P", "probe pb", "probe w", "delete w", "delete w", "probe w", "write w 1 00",
@@ -33,7 +36,7 @@ oracle = oracle_for("C36")
 
 def run(ctx):
     r = ctx.rng
-    n = 140 if ctx.tier == "quick" else 8000
+    n = 140 if ctx.tier == "quick" else 3000
     cases = [Case(list(c)) for c in CORPUS]
     for _ in range(n):
         cases.append(gen_case(r, PROFILE))
